@@ -651,6 +651,14 @@ func init() {
 		},
 		// dialling: the peer is always 192.0.2.1:3671; the connection object is an empty stub whose
 		// Read/Write/Close are the stubs of this table
+		"(*sync.Pool).Put": func(e *Exec, t *Thread, a []Value, g bool) (Value, bool) {
+			pp := a[0].(Ptr)
+			if iv, ok := a[1].(Iface); ok && iv.T == nil {
+				return done(nil)
+			}
+			e.pools[pp.Obj] = append(e.pools[pp.Obj], a[1])
+			return done(nil)
+		},
 		"net.ParseIP": func(e *Exec, t *Thread, a []Value, g bool) (Value, bool) {
 			// documented contract, evaluated on the (concrete) text by the host's net.ParseIP:
 			// nil for anything that is not an IP address, else the 16-byte form
